@@ -13,7 +13,7 @@ BOUNDS = dict(quick='segment distance: chord end points on the integer grid [0,3
               thorough='segment distance: chords on [-2,4]^2; perpendicular sub-ranges n <= 5; rank: n <= 6; otherwise as quick')
 ASSUMPTIONS = ['exact real arithmetic (T1)', 'chord end points concrete (grid): the all-symbolic segment-distance identity (7 reals) is beyond z3 (measured, DESIGN 2.6)',
                'rectangles given by (min corner, max corner); Menger triple pairwise distinct']
-CONFIG = dict(quick=dict(budget_s=150, case_wall_s=100), thorough=dict(budget_s=1700, case_wall_s=600))
+CONFIG = dict(quick=dict(budget_s=150, case_wall_s=100), thorough=dict(budget_s=900, case_wall_s=600))
 
 
 def cases(tier, seed):
